@@ -81,6 +81,9 @@ structure St where
   rfail : Option (Nat × Bool) := none
   /-- persistent Session objects / contexts with an embedded session, by name -/
   sessions : List (String × C05.Ses) := []
+  /-- blockstore of the SECOND block service "B" of the case (same configuration, own store and exchange; the
+  failure scripts apply to the first one only) -/
+  storeB : Store := []
 
 /-- `pf` argument of the next API call -/
 def St.pf (s : St) : Option Nat := s.pfail.map (·.1)
@@ -127,7 +130,22 @@ def vrow (al : Allowlist) (code : Nat) : String :=
     match validate al code len with
     | .ok => 'o' | .insecure => 'i' | .small => 's' | .large => 'l')
 
-def step (fixed : Bool) (s : St) (ln : String) : St × String :=
+/-- mode of a call on the second block service: a context that carries a session embedded for the FIRST service
+(`B:C<k>`) means nothing to it (the context key is the BlockService value): a plain direct call; `B:X<k>` = a
+context in which a session for B was embedded on top of that -/
+def bMode (m : String) : String :=
+  if m == "B:d" || m.startsWith "B:C" then "d" else "BX" ++ (m.drop 3).toString
+
+/-- rewrite an op on service B into the same op on a state whose store is B's -/
+def toB (ts : List String) : Option (List String) :=
+  match ts with
+  | "badd" :: r => some ("add" :: r)
+  | ["bpeek", c] => some ["peek", c]
+  | "get" :: m :: r => if m.startsWith "B:" then some ("get" :: bMode m :: r) else none
+  | "getmany" :: m :: r => if m.startsWith "B:" then some ("getmany" :: bMode m :: r) else none
+  | _ => none
+
+def stepA (fixed : Bool) (s : St) (ln : String) : St × String :=
   let ts := (ln.trimAscii.toString.splitOn " ").filter (· ≠ "")
   let ses (mode : String) : Bool := s.sesEx && mode != "d"
   match ts with
@@ -212,6 +230,17 @@ def step (fixed : Bool) (s : St) (ln : String) : St × String :=
           | none => "none")
     | none => (s, "bad-op")
   | _ => (s, "bad-op")
+
+/-- one op line; ops on the second block service run the same model on B's store (no failure scripts) -/
+def step (fixed : Bool) (s : St) (ln : String) : St × String :=
+  let ts := (ln.trimAscii.toString.splitOn " ").filter (· ≠ "")
+  match toB ts with
+  | none => stepA fixed s ln
+  | some ts' =>
+    if !s.live then (s, "bad-op") else
+    let sB : St := { s with store := s.storeB, pfail := none, rfail := none }
+    let (sB', out) := stepA fixed sB (" ".intercalate ts')
+    ({ sB' with store := s.store, storeB := sB'.store, pfail := s.pfail, rfail := s.rfail }, out)
 
 partial def loop (fixed : Bool) (h : IO.FS.Stream) (out : IO.FS.Stream) (s : St) : IO Unit := do
   let ln ← h.getLine
